@@ -8,5 +8,13 @@ def register(CHECKS, NOT_YET, ENGINES, EXTRA_ENGINE, EXTRA_NOTE):
     CHECKS["C16"] = ("§7.16", "round-trip PBT through serde_json inside generated histories; lock-step continuation of original and copy",
                      "With the deser feature enabled, generated histories serialise and deserialise the arena at generated points; equality, re-serialisation, is_removed of every historical id, and identical behaviour of copy and original under the remaining calls are checked. Sampled states, one data format.")
     EXTRA_NOTE["C16"] = "Trusted base: serde / serde_json (as carrier), the reference model, proptest. Built with indextree feature deser in its own target directory."
-    for pid in ("C15", "C17", "C18"):
+    CHECKS["C17"] = ("§7.17", "differential PBT across cargo feature sets: identical observation digests for one seeded battery; par_iter multiset = iter",
+                     "The same seeded battery of generated and exhaustively enumerated histories is executed by harness binaries built against every feature set (4 in quick, all 16 in thorough); per-history digests of everything observable must agree, each build is also judged by the model oracles, and par_iter() is compared with iter() in par_iter builds. A feature set that stops compiling is reported as well.")
+    EXTRA_NOTE["C17"] = "Trusted base: cargo feature resolution (resolver 2, one target dir per feature set), the digest function (FNV/splitmix over textual observations), the reference model. One target triple only."
+    CHECKS["C18"] = ("§7.18", "PBT over generated arenas with 16 concurrent reader programs vs single-thread oracle (TSan in thorough); compile-time Send/Sync assertions and a lexical tripwire as auxiliary guards",
+                     "Generated arenas are read concurrently by 16 threads running generated read programs (all traversals, pretty printer, par_iter) and every read is compared with the single-threaded result; thorough repeats this under ThreadSanitizer. The 'for every T' clause is decided by compiling a generic Send+Sync assertion, the 'no unsafe / no interior mutability' clause by a source scan. Schedules are sampled only: the 'every scheduling' quantifier is out of reach for this technique and is not claimed beyond sampling.")
+    EXTRA_NOTE["C18"] = "Trusted base: rustc's auto-trait checking, the OS scheduler as schedule source, ThreadSanitizer (thorough), a regex scan of indextree/src. No schedule enumeration."
+    ENGINES.append({"name": "itv-c18", "path": "harness/c18 + harness/c18s", "serves_properties": ["C18"], "kind_free_text": "generated arenas x 16 reader threads differential; compile-time Send/Sync crate; TSan build"})
+    EXTRA_ENGINE["C18"] = "itv-c18"
+    for pid in ("C15",):
         NOT_YET[pid] = "check under construction in this session (see DESIGN.md §7); not claimed until its machinery is committed"
